@@ -782,3 +782,604 @@ Theorem roundtrip G t i : wf_gdata G = true -> conforms G t i = true ->
     parse_inst G t idx {| rest := bytes_of_words (asm_inst i) ++ r; off := o; lim := None |}
     = Ok (i, {| rest := r; off := o + 4 * N.of_nat (length (asm_inst i)); lim := None |}).
 Proof. intros WF. apply roundtrip_small. apply wf_gdata_spec in WF. tauto. Qed.
+
+
+(** ---------------------------------------------------------------- *)
+(** * R3: what the parser accepts conforms                            *)
+(** ---------------------------------------------------------------- *)
+Definition byte (b : N) : Prop := b < 256.
+
+(** a limited decoder over bytes *)
+Definition Good (d : dec) : Prop := Forall byte (rest d) /\ exists l, lim d = Some l.
+
+(** from [d] to [d'] exactly [n] words were charged to the limit *)
+Definition Cons (d d' : dec) (n : N) : Prop :=
+  Good d' /\ forall l, lim d = Some l -> n <= l /\ lim d' = Some (l - n).
+
+Lemma Cons_refl d : Good d -> Cons d d 0.
+Proof. intros H. split; [exact H|]. intros l Hl. split; [lia|]. rewrite Hl. f_equal. lia. Qed.
+
+Lemma Cons_trans d d1 d2 n m : Cons d d1 n -> Cons d1 d2 m -> Cons d d2 (n + m).
+Proof.
+  intros [G1 H1] [G2 H2]. split; [exact G2|]. intros l Hl.
+  destruct (H1 l Hl) as [A B]. destruct (H2 _ B) as [C D]. split; [lia|]. rewrite D. f_equal. lia.
+Qed.
+
+Lemma Cons_eq d d' n m : n = m -> Cons d d' n -> Cons d d' m.
+Proof. intros ->. auto. Qed.
+
+Lemma Cons_good d d' n : Cons d d' n -> Good d'.
+Proof. intros [H _]. exact H. Qed.
+
+Lemma Forall_firstn_skipn {A} (P : A -> Prop) n l : Forall P l -> Forall P (firstn n l) /\ Forall P (skipn n l).
+Proof. intros H. rewrite <- (firstn_skipn n l) in H. apply Forall_app in H. exact H. Qed.
+
+Lemma word_rev d w d' : Good d -> word d = (inl w, d') -> w < w32 /\ Cons d d' 1.
+Proof.
+  intros [HB [l0 HL]] H. destruct (word_ok _ _ _ H) as (b0 & b1 & b2 & b3 & HR & -> & _ & HLim & HLR).
+  rewrite HR in HB.
+  pose proof (Forall_inv HB) as B0. apply Forall_inv_tail in HB.
+  pose proof (Forall_inv HB) as B1. apply Forall_inv_tail in HB.
+  pose proof (Forall_inv HB) as B2. apply Forall_inv_tail in HB.
+  pose proof (Forall_inv HB) as B3. apply Forall_inv_tail in HB.
+  split; [apply word_of_bytes_lt; assumption|]. split.
+  - split; [exact HB|]. rewrite HLim, HL. eexists. reflexivity.
+  - intros l Hl. rewrite HLim, Hl. cbn [dec_lim]. unfold limit_reached in HLR. rewrite Hl in HLR.
+    split; [destruct l; [discriminate|lia]|reflexivity].
+Qed.
+
+Lemma bit64_rev d v d' : Good d -> bit64 d = (inl v, d') ->
+  v < w32 * w32 /\ Cons d d' 2.
+Proof.
+  intros HG H. destruct (bit64_ok _ _ _ H) as (lo & hi & d1 & W1 & W2 & -> & _).
+  destruct (word_rev _ _ _ HG W1) as [Hlo C1].
+  destruct (word_rev _ _ _ (Cons_good _ _ _ C1) W2) as [Hhi C2].
+  split; [unfold w32 in *; lia|]. apply (Cons_trans _ _ _ 1 1 C1 C2).
+Qed.
+
+Lemma string_rev d s d' : Good d -> dstring d = (inl s, d') ->
+  str_ok s = true /\ Cons d d' (N.of_nat (length (chunks s))).
+Proof.
+  intros [HB [l0 HL]] H.
+  destruct (string_ok _ _ _ H) as (i & HI & Hs & Hu & Hnz & Hfit & HR & _ & HLim & Hle).
+  destruct (index0_spec _ _ HI) as (Hi & _ & _).
+  assert (Hlen: length s = i) by (rewrite Hs; apply firstn_length_le; lia).
+  assert (Hbs: Forall byte s) by (rewrite Hs; apply (Forall_firstn_skipn byte i _ HB)).
+  destruct (chunks_spec s Hbs) as (_ & _ & Hcl). rewrite Hlen in Hcl.
+  split.
+  - unfold str_ok. rewrite Hu, andb_true_r. apply forallb_forall. intros b Hb.
+    specialize (Hnz b Hb). rewrite Forall_forall in Hbs. specialize (Hbs b Hb). unfold byte in Hbs. lia.
+  - rewrite Hcl. split.
+    + split; [rewrite HR; apply (Forall_firstn_skipn byte _ _ HB)|]. rewrite HLim, HL. eexists. reflexivity.
+    + intros l Hl. split; [apply Hle; exact Hl|]. rewrite HLim, Hl. reflexivity.
+Qed.
+
+Lemma make_operand_ok m w : m <> MkStr -> w < w32 ->
+  word_operand m (make_operand m w) = true /\ operand_value (make_operand m w) = w /\
+  asm_operand (make_operand m w) = [w].
+Proof.
+  intros Hm Hw. destruct m; try congruence; cbn [make_operand word_operand operand_value asm_operand];
+    (split; [|split; reflexivity]); lia.
+Qed.
+
+Lemma read_slot_rev s d o d' : Good d -> read_slot s d = Ok (o, d') ->
+  slot_ok s o = true /\ Cons d d' (N.of_nat (length (asm_operand o))).
+Proof.
+  intros HG H. destruct s as [[| |c] m].
+  - assert (Hm: m <> MkStr) by (intros ->; discriminate H).
+    rewrite read_slot_word in H by exact Hm.
+    destruct (word d) as [[w|e] d1] eqn:W; cbn [dreq bind] in H; [|discriminate]. inversion H; subst.
+    destruct (word_rev _ _ _ HG W) as [Hw C]. destruct (make_operand_ok m w Hm Hw) as (A & B & E).
+    cbn [slot_ok]. rewrite E. split; [exact A|exact C].
+  - destruct m; try discriminate H. cbn [read_slot] in H.
+    destruct (dstring d) as [[s|e] d1] eqn:S; cbn [dreq bind] in H; [|discriminate]. inversion H; subst.
+    cbn [slot_ok asm_operand]. apply string_rev; assumption.
+  - assert (Hm: m <> MkStr) by (intros ->; discriminate H).
+    rewrite read_slot_typed in H by exact Hm.
+    destruct (typed c d) as [[w|e] d1] eqn:T; cbn [dreq bind] in H; [|discriminate]. inversion H; subst.
+    destruct (typed_ok _ _ _ _ T) as [W Hc].
+    destruct (word_rev _ _ _ HG W) as [Hw C]. destruct (make_operand_ok m w Hm Hw) as (A & B & E).
+    cbn [slot_ok]. rewrite E, A, B, Hc. split; [reflexivity|exact C].
+Qed.
+
+Lemma parse_slots_rev : forall ss d a d', Good d -> parse_slots ss d = Ok (a, d') ->
+  (forall rest, split_slots ss (a ++ rest) = Some (a, rest)) /\ Cons d d' (N.of_nat (length (flat a))) /\
+  length a = length ss.
+Proof.
+  induction ss as [|s ss IH]; intros d a d' HG H; cbn [parse_slots] in H.
+  - inversion H; subst. split; [reflexivity|]. split; [apply Cons_refl; exact HG|reflexivity].
+  - destruct (read_slot s d) as [[o d1]|e|p] eqn:R; cbn [bind] in H; try discriminate.
+    destruct (read_slot_rev _ _ _ _ HG R) as [Hs C1].
+    destruct (parse_slots ss d1) as [[os d2]|e|p] eqn:P; cbn [bind] in H; try discriminate.
+    inversion H; subst. destruct (IH _ _ _ (Cons_good _ _ _ C1) P) as (HS & C2 & HL).
+    split; [|split].
+    + intros rest. cbn [app split_slots]. rewrite Hs, HS. reflexivity.
+    + cbn [flat_map]. rewrite app_length. eapply Cons_eq; [|exact (Cons_trans _ _ _ _ _ C1 C2)]. lia.
+    + cbn [length]. rewrite HL. reflexivity.
+Qed.
+
+Lemma parse_operand_rev G k d a d' : Good d -> parse_operand G k d = Ok (a, d') ->
+  (forall rest, split_kind G k (a ++ rest) = Some (a, rest)) /\ Cons d d' (N.of_nat (length (flat a))) /\
+  (arms_nonempty G = true -> a <> []).
+Proof.
+  intros HG H. unfold parse_operand in H. unfold split_kind.
+  destruct (nth_error (gd_arms G) (N.to_nat k)) as [[|ss|s t]|] eqn:EA; try discriminate.
+  - destruct (parse_slots_rev _ _ _ _ HG H) as (HS & C & HL). split; [exact HS|]. split; [exact C|].
+    intros HN. unfold arms_nonempty in HN. rewrite forallb_forall in HN.
+    specialize (HN _ (nth_error_In _ _ EA)). destruct ss; [discriminate|]. destruct a; discriminate.
+  - destruct (read_slot s d) as [[o d1]|e|p] eqn:R; cbn [bind] in H; try discriminate.
+    destruct (read_slot_rev _ _ _ _ HG R) as [Hs C1].
+    destruct (parse_slots (table_params t (operand_value o)) d1) as [[os d2]|e|p] eqn:P; cbn [bind] in H; try discriminate.
+    inversion H; subst. destruct (parse_slots_rev _ _ _ _ (Cons_good _ _ _ C1) P) as (HS & C2 & _).
+    split; [|split].
+    + intros rest. cbn [app]. rewrite Hs, HS. reflexivity.
+    + cbn [flat_map]. rewrite app_length. eapply Cons_eq; [|exact (Cons_trans _ _ _ _ _ C1 C2)]. lia.
+    + intros _. discriminate.
+Qed.
+
+Lemma parse_literal_rev t id idx d o d' : Good d -> parse_literal t id idx d = Ok (o, d') ->
+  literal_ok t id o = true /\ Cons d d' (N.of_nat (length (asm_operand o))).
+Proof.
+  intros HG H. rewrite parse_literal_width in H. unfold literal_ok.
+  destruct (lit_width t id) as [[|]|]; [| |discriminate].
+  - unfold lit32 in H. destruct (word d) as [[w|e] d1] eqn:W; cbn [dreq bind] in H; [|discriminate].
+    inversion H; subst. destruct (word_rev _ _ _ HG W) as [Hw C]. split; [lia|exact C].
+  - unfold lit64 in H. destruct (bit64 d) as [[w|e] d1] eqn:W; cbn [dreq bind] in H; [|discriminate].
+    inversion H; subst. destruct (bit64_rev _ _ _ HG W) as [Hw C]. split; [lia|exact C].
+Qed.
+
+Lemma limit_zero d : Good d -> limit_reached d = true -> lim d = Some 0.
+Proof.
+  intros [_ [l HL]] H. unfold limit_reached in H. rewrite HL in *. destruct l; [reflexivity|discriminate].
+Qed.
+
+Lemma Cons_zero d d' n : lim d = Some 0 -> Cons d d' n -> n = 0 /\ lim d' = Some 0.
+Proof. intros HL [_ H]. destruct (H 0 HL) as [A B]. split; [lia|]. rewrite B. f_equal; lia. Qed.
+
+Lemma flat_len0 a : N.of_nat (length (flat a)) = 0 -> a = [].
+Proof. destruct a as [|o a]; [reflexivity|]. pose proof (flat_asm_nonempty o a). lia. Qed.
+
+Lemma split_star_nil G k sf : split_star G k sf [] = true.
+Proof. destruct sf; reflexivity. Qed.
+
+Lemma split_star_mono G k : forall sf os, split_star G k sf os = true ->
+  forall sf', (sf <= sf')%nat -> split_star G k sf' os = true.
+Proof.
+  induction sf as [|sf IH]; intros os H sf' Hle; destruct os as [|o os]; try apply split_star_nil;
+    cbn [split_star] in H; try discriminate.
+  destruct sf'; [lia|]. cbn [split_star].
+  destruct (split_kind G k (o :: os)) as [[[|a0 a] rest]|]; try discriminate.
+  apply (IH _ H). lia.
+Qed.
+
+Section Rev.
+Variable G : gdata.
+Hypothesis SMALL : small_opcodes (gd_table G) = true.
+Hypothesis NONEMPTY : arms_nonempty G = true.
+
+Lemma parse_star_rev k : forall fuel d acc acc' d', Good d -> parse_star G fuel k d acc = Ok (acc', d') ->
+  exists os, acc' = acc ++ os /\ Cons d d' (N.of_nat (length (flat os))) /\ limit_reached d' = true /\
+             forall sf, (length os <= sf)%nat -> split_star G k sf os = true.
+Proof.
+  induction fuel as [|f IH]; intros d acc acc' d' HG H; cbn [parse_star] in H; [discriminate|].
+  destruct (limit_reached d) eqn:LR.
+  - inversion H; subst. exists []. rewrite app_nil_r. split; [reflexivity|].
+    split; [apply Cons_refl; exact HG|]. split; [exact LR|]. intros sf _. apply split_star_nil.
+  - destruct (parse_operand G k d) as [[a d1]|e|p] eqn:P; cbn [bind] in H; try discriminate.
+    destruct (parse_operand_rev _ _ _ _ _ HG P) as (HS & C1 & HA). specialize (HA NONEMPTY).
+    destruct (IH _ _ _ _ (Cons_good _ _ _ C1) H) as (os1 & -> & C2 & LR' & HSS).
+    exists (a ++ os1). split; [rewrite app_assoc; reflexivity|]. split.
+    { rewrite flat_map_app, app_length. eapply Cons_eq; [|exact (Cons_trans _ _ _ _ _ C1 C2)]. lia. }
+    split; [exact LR'|].
+    intros sf Hsf. destruct a as [|a0 a]; [congruence|]. rewrite app_length in Hsf. cbn [length] in Hsf.
+    destruct sf; [lia|]. cbn [app split_star]. change (a0 :: a ++ os1) with ((a0 :: a) ++ os1).
+    rewrite HS. apply HSS. lia.
+Qed.
+
+Lemma parse_nested_rev : forall lops idx d acc acc' d', Good d -> parse_nested G lops idx d acc = Ok (acc', d') ->
+  exists a, acc' = acc ++ a /\ Cons d d' (N.of_nat (length (flat a))) /\
+    forall rest, lim d' = Some (N.of_nat (length (flat rest))) -> conf_nested G lops (a ++ rest) = Some (a, rest).
+Proof.
+  induction lops as [|[k q] lops IH]; intros idx d acc acc' d' HG H; cbn [parse_nested] in H.
+  - inversion H; subst. exists []. rewrite app_nil_r. split; [reflexivity|].
+    split; [apply Cons_refl; exact HG|]. intros rest _. reflexivity.
+  - cbn [conf_nested].
+    destruct (N.eqb k (gd_k_rt G) || N.eqb k (gd_k_rid G)) eqn:Eres; [apply (IH _ _ _ _ _ HG H)|].
+    destruct (N.eqb k (gd_k_ctx G) || N.eqb k (gd_k_pairlitid G) || N.eqb k (gd_k_specop G)) eqn:Espec;
+      [discriminate|].
+    assert (Hone: forall d acc acc' d', Good d ->
+              (do (a, d1) <- parse_operand G k d; parse_nested G lops idx d1 (acc ++ a)) = Ok (acc', d') ->
+              exists a, acc' = acc ++ a /\ a <> [] /\ Cons d d' (N.of_nat (length (flat a))) /\
+                forall rest, lim d' = Some (N.of_nat (length (flat rest))) ->
+                  match split_kind G k (a ++ rest) with
+                  | Some (a0, os1) => match conf_nested G lops os1 with
+                                      | Some (b, rest) => Some (a0 ++ b, rest) | None => None end
+                  | None => None end = Some (a, rest)).
+    { clear H HG d acc acc' d'. intros d acc acc' d' HG H.
+      destruct (parse_operand G k d) as [[a1 d1]|e|p] eqn:P; cbn [bind] in H; try discriminate.
+      destruct (parse_operand_rev _ _ _ _ _ HG P) as (HS & C1 & HA). specialize (HA NONEMPTY).
+      destruct (IH _ _ _ _ _ (Cons_good _ _ _ C1) H) as (a2 & -> & C2 & HC).
+      exists (a1 ++ a2). split; [rewrite app_assoc; reflexivity|]. split.
+      { destruct a1; [congruence|discriminate]. }
+      split.
+      { rewrite flat_map_app, app_length. eapply Cons_eq; [|exact (Cons_trans _ _ _ _ _ C1 C2)]. lia. }
+      intros rest HL. rewrite <- app_assoc, HS, (HC rest HL). reflexivity. }
+    destruct q.
+    + destruct (Hone _ _ _ _ HG H) as (a & E & _ & C & HC). exists a. auto.
+    + destruct (limit_reached d) eqn:LR.
+      * destruct (IH _ _ _ _ _ HG H) as (a & E & C & HC). exists a. split; [exact E|]. split; [exact C|].
+        intros rest HL. destruct (Cons_zero _ _ _ (limit_zero _ HG LR) C) as [Hn HL'].
+        apply flat_len0 in Hn. subst a. rewrite HL' in HL. inversion HL as [HL0]. symmetry in HL0.
+        apply flat_len0 in HL0. subst rest. cbn [app]. apply (HC []). exact HL'.
+      * destruct (Hone _ _ _ _ HG H) as (a & E & HA & C & HC). exists a. split; [exact E|]. split; [exact C|].
+        intros rest HL. destruct a as [|a0 a]; [congruence|]. cbn [app]. apply (HC rest HL).
+    + destruct (parse_star G (star_fuel d) k d acc) as [[acc1 d1]|e|p] eqn:PS; cbn [bind] in H; try discriminate.
+      destruct (parse_star_rev _ _ _ _ _ _ HG PS) as (os & -> & C1 & LR1 & HSS).
+      destruct (IH _ _ _ _ _ (Cons_good _ _ _ C1) H) as (a2 & -> & C2 & HC).
+      destruct (Cons_zero _ _ _ (limit_zero _ (Cons_good _ _ _ C1) LR1) C2) as [Hn HL'].
+      apply flat_len0 in Hn. subst a2. exists os. split; [rewrite app_nil_r; reflexivity|]. split.
+      { eapply Cons_eq; [|exact (Cons_trans _ _ _ _ _ C1 C2)]. cbn [flat_map length]. lia. }
+      intros rest HL. rewrite HL' in HL. inversion HL as [HL0]. symmetry in HL0.
+      apply flat_len0 in HL0. subst rest. rewrite app_nil_r.
+      rewrite (HSS _ (le_n _)). specialize (HC [] HL'). cbn [app] in HC. rewrite HC, app_nil_r. reflexivity.
+Qed.
+
+Lemma parse_spec_constant_op_rev idx d a d' : Good d -> parse_spec_constant_op G idx d = Ok (a, d') ->
+  exists n g nested, a = OSpecOp n :: nested /\ n < 65536 /\ lookup_core (gd_table G) n = Some g /\
+    Cons d d' (N.of_nat (length (flat a))) /\
+    forall rest, lim d' = Some (N.of_nat (length (flat rest))) ->
+      conf_nested G (g_operands g) (nested ++ rest) = Some (nested, rest).
+Proof.
+  intros HG H. unfold parse_spec_constant_op in H.
+  destruct (word d) as [[n|e] d1] eqn:W; cbn [dreq bind] in H; [|discriminate].
+  destruct (word_rev _ _ _ HG W) as [Hn C1].
+  destruct (n <? 65536) eqn:E; [|discriminate].
+  destruct (lookup_core (gd_table G) n) as [g|] eqn:EL; [|discriminate].
+  destruct (lookup_core_opcode G SMALL _ _ EL) as [Hg _]. rewrite Hg in H.
+  destruct (parse_nested_rev _ _ _ _ _ _ (Cons_good _ _ _ C1) H) as (nested & -> & C2 & HC).
+  exists n, g, nested. split; [reflexivity|]. split; [lia|]. split; [exact EL|]. split; [|exact HC].
+  cbn [app flat_map asm_operand length]. eapply Cons_eq; [|exact (Cons_trans _ _ _ _ _ C1 C2)]. lia.
+Qed.
+End Rev.
+
+Section RevLoop.
+Variables (G : gdata) (t : tracker) (opc : N).
+Hypothesis SMALL : small_opcodes (gd_table G) = true.
+Hypothesis NONEMPTY : arms_nonempty G = true.
+
+Lemma step_rev k idx d rt rid acc rt1 rid1 acc1 d1 :
+  Good d -> N.eqb k (gd_k_rt G) = false -> N.eqb k (gd_k_rid G) = false ->
+  step_kind G t opc k idx d rt rid acc = Ok (rt1, rid1, acc1, d1) ->
+  exists a, rt1 = rt /\ rid1 = rid /\ acc1 = acc ++ a /\ a <> [] /\ Cons d d1 (N.of_nat (length (flat a))) /\
+    (forall q r os', variadic q = false -> lim d1 = Some (N.of_nat (length (flat os'))) ->
+        conf_lops G t opc rt ((k, q) :: r) None None acc (a ++ os')
+        = conf_lops G t opc rt r None None (acc ++ a) os') /\
+    (N.eqb k (gd_k_ctx G) = false -> N.eqb k (gd_k_specop G) = false -> forall r os',
+        conf_lops G t opc rt ((k, ZeroOrMore) :: r) None None (acc ++ a) os' = true ->
+        conf_lops G t opc rt ((k, ZeroOrMore) :: r) None None acc (a ++ os') = true).
+Proof.
+  intros HG E1 E2 H. unfold step_kind in H. rewrite E1, E2 in H.
+  destruct (N.eqb k (gd_k_ctx G)) eqn:E3.
+  { destruct (N.eqb opc OP_CONSTANT || N.eqb opc OP_SPEC_CONSTANT) eqn:EO; [|discriminate].
+    destruct rt as [id|]; [|discriminate].
+    destruct (parse_literal t id idx d) as [[o d2]|e|p] eqn:P; cbn [bind] in H; try discriminate.
+    inversion H; subst. destruct (parse_literal_rev _ _ _ _ _ _ HG P) as [HL C].
+    exists [o]. split; [reflexivity|]. split; [reflexivity|]. split; [reflexivity|]. split; [discriminate|].
+    split; [cbn [flat_map]; rewrite app_nil_r; exact C|]. split.
+    - intros q r os' Hq _. cbn [conf_lops app none nil andb negb]. rewrite E1, E2, E3, EO, Hq, HL.
+      cbn [andb negb]. reflexivity.
+    - intros; discriminate. }
+  destruct (N.eqb k (gd_k_pairlitid G)) eqn:E4.
+  { destruct (N.eqb opc OP_SWITCH) eqn:EO; [|discriminate].
+    destruct acc as [|[|sel| | | | | | |] acc0]; try discriminate.
+    destruct (parse_literal t sel idx d) as [[o d2]|e|p] eqn:P; cbn [bind] in H; try discriminate.
+    destruct (word d2) as [[w|e] d3] eqn:W; cbn [dreq bind] in H; [|discriminate].
+    inversion H; subst. destruct (parse_literal_rev _ _ _ _ _ _ HG P) as [HL C1].
+    destruct (word_rev _ _ _ (Cons_good _ _ _ C1) W) as [Hw C2].
+    assert (Hwb: (w <? w32) = true) by lia.
+    exists [o; OIdRef w]. split; [reflexivity|]. split; [reflexivity|]. split; [reflexivity|]. split; [discriminate|].
+    split.
+    { eapply Cons_eq; [|exact (Cons_trans _ _ _ _ _ C1 C2)].
+      cbn [flat_map asm_operand]. rewrite !app_length. cbn [length]. lia. }
+    split.
+    - intros q r os' Hq _. cbn [conf_lops app none nil andb negb]. rewrite E1, E2, E3, E4, EO, Hq, HL, Hwb.
+      cbn [andb]. reflexivity.
+    - intros _ _ r os' HC. cbn [conf_lops app none nil andb negb]. rewrite E1, E2, E3, E4, EO.
+      cbn [variadic andb pairs_ok]. rewrite HL, Hwb. cbn [andb].
+      destruct os' as [|o' os'']; [reflexivity|].
+      cbn [conf_lops app none nil andb negb] in HC. rewrite E1, E2, E3, E4, EO in HC.
+      cbn [variadic andb] in HC. exact HC. }
+  destruct (N.eqb k (gd_k_specop G)) eqn:E5.
+  { destruct (parse_spec_constant_op G idx d) as [[os d2]|e|p] eqn:P; cbn [bind] in H; try discriminate.
+    inversion H; subst.
+    destruct (parse_spec_constant_op_rev G SMALL NONEMPTY _ _ _ _ HG P) as (n & g & nested & -> & Hn & EL & C & HC).
+    assert (Hnb: (n <? 65536) = true) by lia.
+    exists (OSpecOp n :: nested). split; [reflexivity|]. split; [reflexivity|]. split; [reflexivity|].
+    split; [discriminate|]. split; [exact C|]. split.
+    - intros q r os' Hq HL. cbn [conf_lops app none nil andb negb].
+      rewrite E1, E2, E3, E4, E5, Hq, Hnb, EL, (HC os' HL). cbn [andb negb]. reflexivity.
+    - intros _ Hx; discriminate. }
+  destruct (parse_operand G k d) as [[a d2]|e|p] eqn:P; cbn [bind] in H; try discriminate.
+  inversion H; subst. destruct (parse_operand_rev _ _ _ _ _ HG P) as (HS & C & HA). specialize (HA NONEMPTY).
+  exists a. split; [reflexivity|]. split; [reflexivity|]. split; [reflexivity|]. split; [exact HA|].
+  split; [exact C|]. destruct a as [|a0 a']; [congruence|]. split.
+  - intros q r os' Hq _. cbn [conf_lops app none nil andb negb]. rewrite E1, E2, E3, E4, E5, Hq.
+    change (a0 :: a' ++ os') with ((a0 :: a') ++ os'). rewrite HS. reflexivity.
+  - intros _ _ r os' HC. cbn [conf_lops app none nil andb negb]. rewrite E1, E2, E3, E4, E5.
+    cbn [variadic length split_star]. change (a0 :: a' ++ os') with ((a0 :: a') ++ os'). rewrite HS.
+    apply split_star_mono with (sf := length os'); [|rewrite app_length; lia].
+    destruct os' as [|o' os'']; [apply split_star_nil|].
+    cbn [conf_lops none nil andb negb] in HC. rewrite E1, E2, E3, E4, E5 in HC. cbn [variadic] in HC. exact HC.
+Qed.
+
+Lemma lops_rev_free : forall fuel lops idx d rt rid acc rt' rid' acc' d',
+  Good d -> res_free G lops = true -> special_quant_ok G lops = true ->
+  parse_lops G fuel t opc lops idx d rt rid acc = Ok (rt', rid', acc', d') ->
+  exists os, rt' = rt /\ rid' = rid /\ acc' = acc ++ os /\ Cons d d' (N.of_nat (length (flat os))) /\
+    (limit_reached d' = true -> conf_lops G t opc rt lops None None acc os = true).
+Proof.
+  induction fuel as [|f IH]; intros lops idx d rt rid acc rt' rid' acc' d' HG HF HQ H; [discriminate|].
+  destruct lops as [|[k q] r].
+  - cbn [parse_lops] in H. inversion H; subst. exists []. rewrite app_nil_r.
+    split; [reflexivity|]. split; [reflexivity|]. split; [reflexivity|]. split; [apply Cons_refl; exact HG|].
+    intros _. reflexivity.
+  - destruct (limit_reached d) eqn:LR.
+    + cbn [parse_lops] in H. rewrite LR in H.
+      destruct q; [discriminate| |]; inversion H; subst; exists []; rewrite app_nil_r;
+        (split; [reflexivity|]; split; [reflexivity|]; split; [reflexivity|];
+         split; [apply Cons_refl; exact HG|]); intros _; reflexivity.
+    + rewrite parse_lops_step in H by exact LR.
+      destruct (step_kind G t opc k idx d rt rid acc) as [[[[rt1 rid1] acc1] d1]|e|p] eqn:ES;
+        cbn [bind] in H; try discriminate.
+      pose proof HF as HF0. pose proof HQ as HQ0.
+      cbn [res_free special_quant_ok forallb fst snd] in HF, HQ.
+      apply andb_prop in HF as [HF1 HF2]. apply andb_prop in HQ as [HQ1 HQ2].
+      unfold is_res in HF1. apply negb_true_iff in HF1. apply orb_false_iff in HF1 as [E1 E2].
+      destruct (step_rev k idx d rt rid acc _ _ _ _ HG E1 E2 ES) as (a & -> & -> & -> & HA & C1 & HNV & HV).
+      assert (Hrec: forall lops', res_free G lops' = true -> special_quant_ok G lops' = true ->
+                parse_lops G f t opc lops' idx d1 rt rid (acc ++ a) = Ok (rt', rid', acc', d') ->
+                exists os', rt' = rt /\ rid' = rid /\ acc' = acc ++ a ++ os' /\
+                  Cons d d' (N.of_nat (length (flat (a ++ os')))) /\
+                  (limit_reached d' = true -> lim d1 = Some (N.of_nat (length (flat os'))) /\
+                      conf_lops G t opc rt lops' None None (acc ++ a) os' = true)).
+      { intros lops' F1 F2 HP.
+        destruct (IH _ _ _ _ _ _ _ _ _ _ (Cons_good _ _ _ C1) F1 F2 HP) as (os' & ? & ? & ? & C2 & HC).
+        exists os'. split; [assumption|]. split; [assumption|]. split; [rewrite app_assoc; assumption|]. split.
+        { rewrite flat_map_app, app_length. eapply Cons_eq; [|exact (Cons_trans _ _ _ _ _ C1 C2)]. lia. }
+        intros LR'. split; [|apply HC; exact LR'].
+        destruct (Cons_good _ _ _ C1) as [_ [l1 HL1]]. destruct C2 as [G2 C2]. destruct (C2 l1 HL1) as [A B].
+        pose proof (limit_zero _ G2 LR') as Z. rewrite Z in B. inversion B. rewrite HL1. f_equal. lia. }
+      destruct q.
+      * destruct (Hrec r HF2 HQ2 H) as (os' & -> & -> & -> & C2 & HC). exists (a ++ os').
+        split; [reflexivity|]. split; [reflexivity|]. split; [reflexivity|]. split; [exact C2|].
+        intros LR'. destruct (HC LR') as [HL HC']. rewrite HNV by (reflexivity || exact HL). exact HC'.
+      * destruct (Hrec r HF2 HQ2 H) as (os' & -> & -> & -> & C2 & HC). exists (a ++ os').
+        split; [reflexivity|]. split; [reflexivity|]. split; [reflexivity|]. split; [exact C2|].
+        intros LR'. destruct (HC LR') as [HL HC']. rewrite HNV by (reflexivity || exact HL). exact HC'.
+      * destruct (Hrec _ HF0 HQ0 H) as (os' & -> & -> & -> & C2 & HC). exists (a ++ os').
+        split; [reflexivity|]. split; [reflexivity|]. split; [reflexivity|]. split; [exact C2|].
+        intros LR'. destruct (HC LR') as [HL HC'].
+        cbn [variadic negb orb] in HQ1. apply negb_true_iff in HQ1. apply orb_false_iff in HQ1 as [E3 E5].
+        apply HV; assumption.
+Qed.
+End RevLoop.
+
+(** result type / result id come first: the shape [wf_operands] guarantees *)
+Section Front.
+Variables (G : gdata) (t : tracker) (opc : N).
+Hypothesis SMALL : small_opcodes (gd_table G) = true.
+Hypothesis NONEMPTY : arms_nonempty G = true.
+Hypothesis DISTINCT : N.eqb (gd_k_rt G) (gd_k_rid G) = false.
+
+Definition shape1 (lops : list (N * quant)) : bool :=
+  match lops with
+  | (k, q) :: r => if N.eqb k (gd_k_rid G) then negb (variadic q) && res_free G r else res_free G lops
+  | [] => true
+  end.
+
+Definition shape0 (lops : list (N * quant)) : bool :=
+  match lops with
+  | (k, q) :: r => if N.eqb k (gd_k_rt G) then negb (variadic q) && shape1 r else shape1 lops
+  | [] => true
+  end.
+
+Lemma res_free_shape1 lops : res_free G lops = true -> shape1 lops = true.
+Proof.
+  destruct lops as [|[k q] r]; [reflexivity|]. cbn [shape1]. intros H.
+  destruct (N.eqb k (gd_k_rid G)) eqn:E; [|exact H].
+  cbn [res_free forallb fst] in H. unfold is_res in H. rewrite E, orb_true_r in H. discriminate.
+Qed.
+
+Lemma res_free_shape0 lops : res_free G lops = true -> shape0 lops = true.
+Proof.
+  destruct lops as [|[k q] r]; [reflexivity|]. cbn [shape0]. intros H.
+  destruct (N.eqb k (gd_k_rt G)) eqn:E; [|apply res_free_shape1; exact H].
+  cbn [res_free forallb fst] in H. unfold is_res in H. rewrite E in H. discriminate.
+Qed.
+
+Lemma wf_operands_shape0 ops : wf_operands (gd_k_rt G) (gd_k_rid G) ops = true -> shape0 ops = true.
+Proof.
+  unfold wf_operands. intros H. apply andb_prop in H as [H1 _].
+  change (res_free G (strip_front (gd_k_rt G) (gd_k_rid G) ops) = true) in H1.
+  destruct ops as [|[k q] r]; [reflexivity|]. cbn [strip_front] in H1.
+  destruct q; try (apply res_free_shape0; exact H1).
+  destruct (N.eqb k (gd_k_rt G)) eqn:Ert.
+  - cbn [shape0]. rewrite Ert. cbn [variadic negb andb].
+    destruct r as [|[k2 q2] r2]; [reflexivity|].
+    destruct q2; try (apply res_free_shape1; exact H1).
+    destruct (N.eqb k2 (gd_k_rid G)) eqn:Erid; [|apply res_free_shape1; exact H1].
+    cbn [shape1]. rewrite Erid. exact H1.
+  - destruct (N.eqb k (gd_k_rid G)) eqn:Erid; [|apply res_free_shape0; exact H1].
+    cbn [shape0]. rewrite Ert. cbn [shape1]. rewrite Erid. exact H1.
+Qed.
+
+Lemma special_quant_tail k q r : special_quant_ok G ((k, q) :: r) = true -> special_quant_ok G r = true.
+Proof. cbn [special_quant_ok forallb]. intros H. apply andb_prop in H as [_ H]. exact H. Qed.
+
+Lemma lops_rev_rid fuel lops idx d rt rid acc rt' rid' acc' d' :
+  Good d -> shape1 lops = true -> special_quant_ok G lops = true ->
+  parse_lops G fuel t opc lops idx d rt rid acc = Ok (rt', rid', acc', d') ->
+  exists os prid, rt' = rt /\ rid' = final prid rid /\ acc' = acc ++ os /\
+    Cons d d' (N.of_nat (length (enc None prid os))) /\
+    (limit_reached d' = true -> conf_lops G t opc rt lops None prid acc os = true).
+Proof.
+  intros HG HS HQ H.
+  assert (Hfree: res_free G lops = true -> exists os prid, rt' = rt /\ rid' = final prid rid /\ acc' = acc ++ os /\
+            Cons d d' (N.of_nat (length (enc None prid os))) /\
+            (limit_reached d' = true -> conf_lops G t opc rt lops None prid acc os = true)).
+  { intros HF. destruct (lops_rev_free G t opc SMALL NONEMPTY _ _ _ _ _ _ _ _ _ _ _ HG HF HQ H)
+      as (os & -> & -> & -> & C & HC).
+    exists os, None. split; [reflexivity|]. split; [reflexivity|]. split; [reflexivity|]. split; [exact C|exact HC]. }
+  destruct lops as [|[k q] r]; [apply Hfree; reflexivity|]. cbn [shape1] in HS.
+  destruct (N.eqb k (gd_k_rid G)) eqn:Ek; [|apply Hfree; exact HS]. clear Hfree.
+  apply andb_prop in HS as [HV HF]. apply negb_true_iff in HV.
+  assert (Ert: N.eqb k (gd_k_rt G) = false).
+  { apply N.eqb_eq in Ek. subst k. rewrite N.eqb_sym. exact DISTINCT. }
+  destruct fuel as [|f]; [discriminate|]. destruct (limit_reached d) eqn:LR.
+  - cbn [parse_lops] in H. rewrite LR in H.
+    destruct q; [discriminate| |]; inversion H; subst; exists [], None; rewrite app_nil_r;
+      (split; [reflexivity|]; split; [reflexivity|]; split; [reflexivity|];
+       split; [apply Cons_refl; exact HG|]); intros _; reflexivity.
+  - rewrite parse_lops_step in H by exact LR. unfold step_kind in H. rewrite Ert, Ek in H.
+    destruct (word d) as [[w|e] d1] eqn:W; cbn [dreq bind] in H; [|discriminate].
+    destruct (word_rev _ _ _ HG W) as [Hw C1].
+    assert (H': parse_lops G f t opc r idx d1 rt (Some w) acc = Ok (rt', rid', acc', d'))
+      by (destruct q; [exact H|exact H|discriminate]).
+    destruct (lops_rev_free G t opc SMALL NONEMPTY _ _ _ _ _ _ _ _ _ _ _ (Cons_good _ _ _ C1) HF
+                (special_quant_tail _ _ _ HQ) H') as (os & -> & -> & -> & C2 & HC).
+    exists os, (Some w). split; [reflexivity|]. split; [reflexivity|]. split; [reflexivity|]. split.
+    { eapply Cons_eq; [|exact (Cons_trans _ _ _ _ _ C1 C2)]. unfold enc. cbn [oword app length]. lia. }
+    intros LR'. cbn [conf_lops none nil andb]. rewrite Ert, Ek, HV, (HC LR').
+    assert (Hwb: (w <? w32) = true) by lia. rewrite Hwb. reflexivity.
+Qed.
+
+Lemma lops_rev_front fuel lops idx d rt rid acc rt' rid' acc' d' :
+  Good d -> shape0 lops = true -> special_quant_ok G lops = true ->
+  parse_lops G fuel t opc lops idx d rt rid acc = Ok (rt', rid', acc', d') ->
+  exists os prt prid, rt' = final prt rt /\ rid' = final prid rid /\ acc' = acc ++ os /\
+    Cons d d' (N.of_nat (length (enc prt prid os))) /\
+    (limit_reached d' = true -> conf_lops G t opc rt' lops prt prid acc os = true).
+Proof.
+  intros HG HS HQ H.
+  assert (Hrid: shape1 lops = true -> exists os prt prid, rt' = final prt rt /\ rid' = final prid rid /\
+            acc' = acc ++ os /\ Cons d d' (N.of_nat (length (enc prt prid os))) /\
+            (limit_reached d' = true -> conf_lops G t opc rt' lops prt prid acc os = true)).
+  { intros HS1. destruct (lops_rev_rid _ _ _ _ _ _ _ _ _ _ _ HG HS1 HQ H) as (os & prid & -> & -> & -> & C & HC).
+    exists os, None, prid. split; [reflexivity|]. split; [reflexivity|]. split; [reflexivity|].
+    split; [exact C|exact HC]. }
+  destruct lops as [|[k q] r]; [apply Hrid; reflexivity|]. cbn [shape0] in HS.
+  destruct (N.eqb k (gd_k_rt G)) eqn:Ek; [|apply Hrid; exact HS]. clear Hrid.
+  apply andb_prop in HS as [HV HS1]. apply negb_true_iff in HV.
+  destruct fuel as [|f]; [discriminate|]. destruct (limit_reached d) eqn:LR.
+  - cbn [parse_lops] in H. rewrite LR in H.
+    destruct q; [discriminate| |]; inversion H; subst; exists [], None, None; rewrite app_nil_r;
+      (split; [reflexivity|]; split; [reflexivity|]; split; [reflexivity|];
+       split; [apply Cons_refl; exact HG|]); intros _; reflexivity.
+  - rewrite parse_lops_step in H by exact LR. unfold step_kind in H. rewrite Ek in H.
+    destruct (word d) as [[w|e] d1] eqn:W; cbn [dreq bind] in H; [|discriminate].
+    destruct (word_rev _ _ _ HG W) as [Hw C1].
+    assert (H': parse_lops G f t opc r idx d1 (Some w) rid acc = Ok (rt', rid', acc', d'))
+      by (destruct q; [exact H|exact H|discriminate]).
+    destruct (lops_rev_rid _ _ _ _ _ _ _ _ _ _ _ (Cons_good _ _ _ C1) HS1 (special_quant_tail _ _ _ HQ) H')
+      as (os & prid & -> & -> & -> & C2 & HC).
+    exists os, (Some w), prid. split; [reflexivity|]. split; [reflexivity|]. split; [reflexivity|]. split.
+    { eapply Cons_eq; [|exact (Cons_trans _ _ _ _ _ C1 C2)]. unfold enc. cbn [oword app length]. lia. }
+    intros LR'. cbn [conf_lops none nil andb]. rewrite Ek, HV, (HC LR').
+    assert (Hwb: (w <? w32) = true) by lia. rewrite Hwb. reflexivity.
+Qed.
+End Front.
+
+Lemma final_None p : final p None = p.
+Proof. destruct p; reflexivity. Qed.
+
+(** R3: an instruction the parser returns from a byte buffer conforms to the
+    grammar - and hence (R2) assembles to words that parse back to itself.
+    The bytes must be bytes: the model's buffer is a [list N]; see
+    [parse_sound_needs_bytes] below for what happens otherwise. *)
+Theorem parse_sound_full G t idx d i d1 :
+  wf_gdata G = true -> Forall byte (rest d) ->
+  parse_inst G t idx d = Ok (i, d1) ->
+  conforms G t i = true /\
+  exists w d0, word d = (inl w, d0) /\ (w / 65536) mod 65536 = N.of_nat (length (asm_inst i)) /\
+               w mod 65536 = i_opcode i.
+Proof.
+  intros WF HB H. destruct (wf_gdata_spec G WF) as (SMALL & WFO & SQ & DIST & NE).
+  unfold parse_inst in H. destruct (word d) as [[w|e] d0] eqn:W; [|discriminate]. cbv zeta in H.
+  destruct (N.eqb ((w / 65536) mod 65536) 0) eqn:E0; [discriminate|].
+  destruct (lookup_core (gd_table G) (w mod 65536)) as [g|] eqn:EL; [|discriminate].
+  set (d2 := set_limit d0 ((w / 65536) mod 65536 - 1)) in *.
+  destruct (parse_lops G (lops_fuel (g_operands g) d2) t (g_opcode g) (g_operands g) idx d2 None None [])
+    as [[[[rt rid] ops] d3]|e|p] eqn:PL; cbn [bind] in H; try discriminate.
+  destruct (limit_reached d3) eqn:LR; [|discriminate]. inversion H; subst. clear H.
+  destruct (lookup_core_opcode G SMALL _ _ EL) as [Hg _].
+  assert (Hin: In g (gd_table G)) by (unfold lookup_core in EL; apply find_some in EL; tauto).
+  assert (HG2: Good d2).
+  { destruct (word_ok _ _ _ W) as (b0 & b1 & b2 & b3 & HR & _).
+    rewrite HR in HB. do 4 apply Forall_inv_tail in HB.
+    split; [exact HB|]. eexists. reflexivity. }
+  destruct (lops_rev_front G t (g_opcode g) SMALL NE DIST _ _ _ _ _ _ _ _ _ _ _ HG2
+              (wf_operands_shape0 G _ (WFO g Hin)) (SQ g Hin) PL)
+    as (os & prt & prid & -> & -> & -> & C & HC).
+  rewrite !final_None in *. cbn [app] in *.
+  destruct C as [G3 C]. destruct (C _ eq_refl) as [A B].
+  rewrite (limit_zero _ G3 LR) in B. inversion B.
+  assert ((w / 65536) mod 65536 < 65536) by (apply N.mod_lt; lia).
+  split.
+  - unfold conforms. cbn [i_opcode i_rtype i_rid i_ops]. rewrite Hg, EL, <- Hg, (HC LR). cbn [andb].
+    unfold asm_body. cbn [i_rtype i_rid i_ops]. fold (enc prt prid os). lia.
+  - exists w, d0. split; [reflexivity|]. cbn [i_opcode]. split; [|symmetry; exact Hg].
+    unfold asm_inst, asm_body. cbv zeta. cbn [i_rtype i_rid i_ops length]. fold (enc prt prid os). lia.
+Qed.
+
+Theorem parse_sound G t idx d i d1 :
+  wf_gdata G = true -> Forall byte (rest d) ->
+  parse_inst G t idx d = Ok (i, d1) -> conforms G t i = true.
+Proof. intros WF HB H. apply (parse_sound_full G t idx d i d1 WF HB H). Qed.
+
+(** R3, padding-insensitive round trip: re-assembling what was parsed and
+    parsing again yields the same instruction *)
+Corollary parse_asm_parse G t idx d i d1 :
+  wf_gdata G = true -> Forall byte (rest d) ->
+  parse_inst G t idx d = Ok (i, d1) ->
+  forall r o idx',
+    parse_inst G t idx' {| rest := bytes_of_words (asm_inst i) ++ r; off := o; lim := None |}
+    = Ok (i, {| rest := r; off := o + 4 * N.of_nat (length (asm_inst i)); lim := None |}).
+Proof. intros WF HB H. apply roundtrip; [exact WF|]. exact (parse_sound G t idx d i d1 WF HB H). Qed.
+
+(** ---------------------------------------------------------------- *)
+(** * The linked tables of this run, and checks by evaluation          *)
+(** ---------------------------------------------------------------- *)
+From RV Require Inst.Linked.
+
+Example wf_gdata_linked : wf_gdata Linked.G = true.
+Proof. vm_cast_no_check (eq_refl true). Qed.
+
+(** without the byte bound R3 fails for the model: the "byte" 256 makes the
+    result id of this OpTypeInt 2^32, which no conforming instruction has
+    (and which the assembler would not emit as one word) *)
+Example parse_sound_needs_bytes :
+  let bytes := [21; 0; 4; 0;  0; 0; 0; 256;  32; 0; 0; 0;  1; 0; 0; 0] in
+  exists i d1, parse_inst Linked.G [] 0 (mkdec bytes) = Ok (i, d1) /\ i_rid i = Some 4294967296 /\
+               conforms Linked.G [] i = false.
+Proof. eexists _, _. split; [vm_compute; reflexivity|]. split; vm_compute; reflexivity. Qed.
+
+(** the round trip, evaluated: OpEntryPoint Fragment %4 "main" %9 %10 *)
+Example roundtrip_entry_point :
+  let i := {| i_opcode := 15; i_rtype := None; i_rid := None;
+              i_ops := [OEnum 12 4; OIdRef 4; OStr [109; 97; 105; 110]; OIdRef 9; OIdRef 10] |} in
+  conforms Linked.G [] i = true /\
+  parse_inst Linked.G [] 0 (mkdec (bytes_of_words (asm_inst i) ++ [1; 2; 3]))
+  = Ok (i, {| rest := [1; 2; 3]; off := 4 * N.of_nat (length (asm_inst i)); lim := None |}).
+Proof. split; vm_compute; reflexivity. Qed.
+
+Print Assumptions word_read_lim.
+Print Assumptions word_read_nolim.
+Print Assumptions bit64_read.
+Print Assumptions string_read_lim.
+Print Assumptions asm_first_word.
+Print Assumptions roundtrip_small.
+Print Assumptions roundtrip.
+Print Assumptions parse_sound_full.
+Print Assumptions parse_sound.
+Print Assumptions parse_asm_parse.
+Print Assumptions wf_gdata_linked.
